@@ -27,7 +27,7 @@ ASSUMPTIONS = ["copy=False setters are an explicit opt-in to sharing and are out
 
 OPS = ["set_u", "set_logl", "upd_bz", "upd_all", "commit", "get_current", "get_current_u", "get_current_logl", "get_hist_u", "get_hist_logl",
        "get_hist_u_flat", "get_hist_logl_flat", "get_hist_logl_idx", "get_last_u", "get_last_logl", "results", "logw", "to_dict",
-       "update_from_dict", "from_dict", "save_load", "get_hist_beta"]
+       "update_from_dict", "from_dict", "save_load", "get_hist_beta", "save_excl"]
 ACCESSORS = {o for o in OPS if o.startswith("get_") or o in ("results", "logw", "to_dict")}
 SENT = 777.0
 
@@ -57,7 +57,18 @@ def _arrays(o, acc=None):
 
 
 def _internal(sm):
-    return _arrays([sm._current, sm._history, sm._results_dict])
+    """Every ndarray reachable from the object's attributes: current, history and ANY cache (present or future)."""
+    return _arrays([v for v in vars(sm).values()])
+
+
+def _internal_sampler(s):
+    out = _internal(s.state)
+    core = s._core
+    for name, v in vars(core).items():
+        if name in ("state", "config", "reweighter", "trainer", "resampler", "mutator", "pbar"):
+            continue
+        out += _arrays(v)
+    return out
 
 
 def _scribble(o):
@@ -196,6 +207,10 @@ def run_seq(seq, res, cc, fs):
                 with mounted(fs):
                     sm.save_state("/memfs/s/state.pkl")
                     sm.load_state("/memfs/s/state.pkl")
+            elif op == "save_excl":
+                # exporting with an exclude list must not touch the live object (whatever the list names)
+                with mounted(fs):
+                    sm.save_state("/memfs/s/light.pkl", exclude=["u", "pbar"])
             else:
                 raise RuntimeError(op)
         except Exception as e:
@@ -280,7 +295,7 @@ def run_prefix(case):
 
 
 # --------------------------------------------------------------------------------------- sampler layer
-S_OPS = ["results", "posterior", "posterior_rs", "posterior_logw", "to_dict", "get_current", "get_hist_u", "get_hist_logl_flat", "get_last_u", "evidence", "sample_ret"]
+S_OPS = ["results", "posterior", "posterior_rs", "posterior_logw", "posterior_raw", "posterior_raw_logw", "to_dict", "get_current", "get_hist_u", "get_hist_logl_flat", "get_last_u", "evidence", "sample_ret"]
 
 
 def _sampler_run(seq, base, scribble):
@@ -301,6 +316,10 @@ def _sampler_run(seq, base, scribble):
                 r = s.posterior(resample=True, trim_importance_weights=False)
             elif op == "posterior_logw":
                 r = s.posterior(return_logw=True)
+            elif op == "posterior_raw":
+                r = s.posterior(trim_importance_weights=False, resample=False, return_blobs=True)
+            elif op == "posterior_raw_logw":
+                r = s.posterior(trim_importance_weights=False, resample=False, return_logw=True)
             elif op == "to_dict":
                 r = s.state.to_dict()
             elif op == "get_current":
@@ -316,7 +335,7 @@ def _sampler_run(seq, base, scribble):
             elif op == "sample_ret":
                 r = last_ret if last_ret is not None else s.state.get_current()
         if scribble:
-            internal = _internal(s.state)
+            internal = _internal_sampler(s)
             for a in _arrays(r):
                 if a.size and any(np.shares_memory(a, b) for b in internal):
                     return ("alias", op), p
